@@ -174,14 +174,73 @@ func (ex *Exec) wrap1(t *Term, ii intInfo) *Term {
 }
 
 // wrapMod wraps any mathematical Int into the range of the type.
+// Non-linear arguments use a witness: r = t - k*2^w with lo <= r <= hi (k, r fresh and
+// uniquely determined by t, so adding the definition never constrains the inputs).
 func (ex *Exec) wrapMod(t *Term, ii intInfo) *Term {
 	ts := ex.ts
 	if t.Const {
 		m := new(big.Int).Mod(new(big.Int).Sub(t.B, ii.lo()), ii.size())
 		return ts.IntConst(m.Add(m, ii.lo()))
 	}
-	lo, sz := ts.IntConst(ii.lo()), ts.IntConst(ii.size())
-	return ts.IntBin("+", ts.IntBin("mod", ts.IntBin("-", t, lo), sz), lo)
+	lo, hi, sz := ts.IntConst(ii.lo()), ts.IntConst(ii.hi()), ts.IntConst(ii.size())
+	if !ex.useWitness(t) {
+		return ts.IntBin("+", ts.IntBin("mod", ts.IntBin("-", t, lo), sz), lo)
+	}
+	k := ex.freshVar("wrapk", IntSort)
+	r := ex.freshVar("wrapr", IntSort)
+	ex.define(ts.And(ts.Eq(r, ts.IntBin("-", t, ts.IntBin("*", k, sz))), ts.And(ts.IntCmp(">=", r, lo), ts.IntCmp("<=", r, hi))))
+	return r
+}
+
+// useWitness: products and quotients of two symbolic terms are non-linear
+func (ex *Exec) useWitness(t *Term) bool {
+	seen := map[*Term]bool{}
+	var nl func(t *Term) bool
+	nl = func(t *Term) bool {
+		if seen[t] {
+			return false
+		}
+		seen[t] = true
+		if (t.Op == "*" || t.Op == "div" || t.Op == "mod") && !t.Args[0].Const && !t.Args[1].Const {
+			return true
+		}
+		for _, a := range t.Args {
+			if nl(a) {
+				return true
+			}
+		}
+		return false
+	}
+	return nl(t)
+}
+
+// define adds a definitional constraint over fresh variables to the solver context.
+func (ex *Exec) define(c *Term) {
+	ex.pc = append(ex.pc, c)
+	if ex.sol != nil {
+		ex.sol.Assert(c)
+	}
+}
+
+// divWitness returns (q, r) with x = q*y + r, |r| < |y|, r = 0 or sign(r) = sign(x):
+// truncated division. Defined under y != 0 (the caller has established it on this path).
+func (ex *Exec) divWitness(x, y *Term) (*Term, *Term) {
+	ts := ex.ts
+	if ex.divCache == nil {
+		ex.divCache = map[[2]*Term][2]*Term{}
+	}
+	if c, ok := ex.divCache[[2]*Term{x, y}]; ok {
+		return c[0], c[1]
+	}
+	zero := ts.IntConst64(0)
+	q := ex.freshVar("divq", IntSort)
+	r := ex.freshVar("divr", IntSort)
+	def := ts.And(ts.Eq(x, ts.IntBin("+", ts.IntBin("*", q, y), r)),
+		ts.And(ts.IntCmp("<", ts.IntAbs(r), ts.IntAbs(y)),
+			ts.Or(ts.Eq(r, zero), ts.Eq(ts.IntCmp("<", r, zero), ts.IntCmp("<", x, zero)))))
+	ex.define(ts.Implies(ts.Not(ts.Eq(y, zero)), def))
+	ex.divCache[[2]*Term{x, y}] = [2]*Term{q, r}
+	return q, r
 }
 
 // truncated division on mathematical ints (y != 0 established by the caller)
@@ -189,6 +248,10 @@ func (ex *Exec) tdiv(x, y *Term) *Term {
 	ts := ex.ts
 	if x.Const && y.Const {
 		return ts.IntConst(new(big.Int).Quo(x.B, y.B))
+	}
+	if !x.Const && !y.Const {
+		q, _ := ex.divWitness(x, y)
+		return q
 	}
 	zero := ts.IntConst64(0)
 	q := ts.IntBin("div", ts.IntAbs(x), ts.IntAbs(y))
@@ -200,6 +263,10 @@ func (ex *Exec) trem(x, y *Term) *Term {
 	ts := ex.ts
 	if x.Const && y.Const {
 		return ts.IntConst(new(big.Int).Rem(x.B, y.B))
+	}
+	if !x.Const && !y.Const {
+		_, r := ex.divWitness(x, y)
+		return r
 	}
 	zero := ts.IntConst64(0)
 	r := ts.IntBin("mod", ts.IntAbs(x), ts.IntAbs(y))
